@@ -79,6 +79,11 @@ def run(ctx: RuleContext):
     # answers "fine" without looking at dtype or shape, so a leaked flag turns every later violated annotation
     # of the thread into an accepted call (flag typestate of C08.7)
     ctx.reuse("C13.7", run_flag_typestate, ctx, "C13.7", only_attr_of=lambda fl: not fl.guarded_setters and not fl.raising_getters, cg=cg)
+    # C13.12: "an AnnotationError only for misuse of the annotation language": a `{name}` axis that names a parameter the call left at its
+    # default (or an absent *args / **kwargs) is not misuse -- the argument table must have the defaults applied (C02.9)
+    from .c02 import check_defaults_applied
+
+    ctx.reuse("C13.12", check_defaults_applied, ctx, roles_for(ctx.model), "C13.12")
 
 
 # ------------------------------------------------------------------------ C13.1
